@@ -3,6 +3,7 @@ import UbxModel.Model.Fields
 /-! Model of `ubxlib/ubx_cfg_valset.py` (`UbxCfgValSetAction`) and `ubxlib/ubx_cfg_valget.py`
     (`UbxCfgValGetPoll`, `UbxCfgValGet.unpack`). -/
 namespace Ubx
+variable [KeyTable]
 
 /-- `Fields.pack()` over a list of `CfgKeyData` items: the first failing item's exception -/
 def packItems : List CfgItem → Except Exc (List Nat)
